@@ -3,6 +3,8 @@
 // lines is the order of the events (no buffering, valid during static destruction).
 //
 //   h_shutdown path=<quit|reset|noexec|noapp|cycles|race|leakapp|scoped> backlog=<n> delay=<ms> [async=1] [cfg=0] [double=0] [install=1]
+//              [relog=0] (the sink logs once per delivered message, from the worker thread)
+//              [movethread=0] (moveToOwnThread called from a short-lived non-main thread) [concurrent=0] (probe)
 //              [stagger=0] [after=2] [cycles=3] [producers=3] [per=20] [loop=1] [stop=reset|quit]
 //              [seed=1] [pace=<us>] [yield=<point>:<us>,...]
 //
@@ -49,6 +51,7 @@ static void emitf(const char *fmt, ...)
 
 static thread_local int t_cur = -1;       // message the calling producer is logging
 static thread_local bool t_in_call = false;
+static thread_local bool t_posted = false;  // the handler under test took the current message (hook own.locked)
 static std::atomic<int> g_next { 0 };
 static std::atomic<int> g_entered { 0 };
 static std::atomic<int> g_inside { 0 };
@@ -58,6 +61,7 @@ static std::deque<int> *g_foreign = new std::deque<int>;
 struct Yield { char name[40]; int us; };
 static Yield g_yield[16];
 static int g_nyield = 0;
+static bool g_relog = false, g_movethread = false, g_concurrent = false;
 
 extern "C" void qtlogger_verif_point(const char *name)
 {
@@ -69,6 +73,7 @@ extern "C" void qtlogger_verif_point(const char *name)
             g_foreign->push_back(id);
             emitf("FOREIGN %d\n", id);
         }
+        t_posted = true;
         emitf("POST %d\n", id);
     } else if (!strcmp(name, "worker.before_process")) emitf("TAKE\n");
     else if (!strcmp(name, "worker.decremented")) emitf("DONE\n");
@@ -87,7 +92,7 @@ struct RecSink : QtLogger::Sink
     {
         const QByteArray t = m.message().toUtf8();
         int id = -1;
-        if (t.size() > 1 && t[0] == 'm') {
+        if (t.size() > 1 && (t[0] == 'm' || t[0] == 'r')) {
             bool ok = false;
             id = t.mid(1).toInt(&ok);
             if (!ok) id = -1;
@@ -100,6 +105,17 @@ struct RecSink : QtLogger::Sink
         if (g_inside.fetch_add(1) != 0) emitf("OVERLAP %d\n", id);
         g_entered.fetch_add(1);
         if (delayMs > 0) usleep(1000 * delayMs);
+        if (g_relog && !t_in_call && t[0] == 'm') {
+            // a sink that itself logs through the installed logger.  Only on the worker thread: on a
+            // producer thread Qt's recursion guard sends a nested message to stderr, not to the handler
+            int id2 = g_next.fetch_add(1);
+            t_cur = id2;
+            t_posted = false;
+            qWarning("r%d", id2);
+            t_cur = -1;
+            // (a logger that is being destroyed has already uninstalled itself: the message is not taken)
+            if (t_posted) emitf("ACCEPTED %d 99\n", id2);
+        }
         emitf("DELIVER %d %c\n", id, t_in_call ? 's' : 'a');
         g_inside.fetch_sub(1);
     }
@@ -131,7 +147,17 @@ static void burst(int n, bool stagger)
     }
 }
 
+static void doMoveHere();
 static void doMove()
+{
+    if (g_movethread) { // asynchronous mode switched on from a short-lived non-main thread
+        std::thread t(doMoveHere);
+        t.join();
+    } else {
+        doMoveHere();
+    }
+}
+static void doMoveHere()
 {
     // with the logger lock held, so that no post falls between the MOVE line and the move itself
     L->lock();
@@ -157,7 +183,13 @@ static void setup(bool async, bool cfg, int delay)
 static void doReset()
 {
     emitf("STOP_BEGIN\n");
-    L->resetOwnThread();
+    if (g_concurrent) { // probe only: two threads stop at the same time (outside the model)
+        std::thread t([]() { L->resetOwnThread(); });
+        L->resetOwnThread();
+        t.join();
+    } else {
+        L->resetOwnThread();
+    }
     emitf("STOP_END\n");
 }
 
@@ -185,6 +217,7 @@ int main(int argc, char **argv)
         if (eq) A[std::string(argv[i], eq - argv[i])] = eq + 1;
     }
     const std::string path = gets("path", "reset");
+    g_relog = geti("relog", 0); g_movethread = geti("movethread", 0); g_concurrent = geti("concurrent", 0);
     const int backlog = geti("backlog", 5), delay = geti("delay", 0), after = geti("after", 2);
     const bool async = geti("async", 1), cfg = geti("cfg", 0), stagger = geti("stagger", 0), loop = geti("loop", 1);
     const int cycles = geti("cycles", 3), P = geti("producers", 3), per = geti("per", 20), seed = geti("seed", 1);
